@@ -23,6 +23,12 @@ FIELDS = {'P': [('a', 'int'), ('b', 'str')], 'Q': [('x', 'str'), ('n', 'int'), (
 TNS = 'c18.tns'
 SOAP_ENV = 'http://schemas.xmlsoap.org/soap/envelope/'
 PROTOS = ('xml', 'soap', 'json')
+# legal configurations of the same protocols (wire side); the part before '-' names the protocol whose model applies
+VARIANTS = ('json-list', 'xml-pretty', 'soap-pretty', 'json-polymorphic')
+
+
+def base_of(proto):
+    return proto.split('-')[0]
 
 
 # ------------------------------------------------------------------------------------ the real code
@@ -50,7 +56,11 @@ class Env(object):
         from spyne.auxproc.sync import SyncAuxProc
         from lxml import etree
         self.__dict__.update(locals())
-        self.proto_cls = {'xml': XmlDocument, 'soap': Soap11, 'json': JsonDocument}
+        self.proto_cls = {'xml': XmlDocument, 'soap': Soap11, 'json': JsonDocument,
+                          'json-list': lambda: JsonDocument(complex_as=list),
+                          'json-polymorphic': lambda: JsonDocument(polymorphic=True),
+                          'xml-pretty': lambda: XmlDocument(pretty_print=True, cleanup_namespaces=False),
+                          'soap-pretty': lambda: Soap11(pretty_print=True, cleanup_namespaces=False)}
 
         class P(ComplexModel):
             __namespace__ = TNS
@@ -91,6 +101,8 @@ class Env(object):
                     p_ctx.out_string = None
                     self.get_out_string(p_ctx)
                 out = b''.join(p_ctx.out_string)
+                # what a transport signals out of band (HTTP: a 4xx/5xx status): the reply is a fault
+                self.last_is_error = p_ctx.out_error is not None
                 try:        # wsgi.py: handle_error / handle_rpc -- "report but ignore any exceptions from auxiliary methods"
                     process_contexts(self, contexts[1:], p_ctx, error=p_ctx.in_error or p_ctx.out_error)
                 except Exception:
@@ -227,7 +239,9 @@ def run_script(E, script, recv):
         items = [native(x, E) for x in script['v']]
         return (x for x in items)
     if k == 'fault':
-        raise E.Fault(script['code'], 'scripted fault')
+        d = script.get('detail')
+        raise E.Fault(script['code'], script.get('string') or 'scripted fault', script.get('actor') or '',
+                      None if d is None else {kk: native(vv, E) for kk, vv in d['o'][1]})
     if k == 'error':
         raise {'ValueError': ValueError, 'KeyError': KeyError, 'Raised': Raised}[script.get('cls', 'ValueError')]('scripted')
     if k == 'pick':
@@ -416,7 +430,7 @@ class Program(object):
             ret = self.proxy(self.ostr[proto])(*[native(x, E) for x in pos], **{k: native(v, E) for k, v in kw})
             raw = b''.join(ret)
         except E.Fault as e:
-            return {'fault': fault_code(e.faultcode)}
+            return canon_fault(self.script, e.faultcode, e.faultstring, e.faultactor, e.detail, self.E)
         except Exception as e:
             return {'exc': type(e).__name__}
         return self.parse_response(proto, capp, raw)
@@ -436,7 +450,7 @@ class Program(object):
             r = f(*[native(x, E) for x in pos], **{k: native(v, E) for k, v in kw})
             out = {'ok': canon_val(r, E)}
         except E.Fault as e:
-            out = {'fault': fault_code(e.faultcode)}
+            out = canon_fault(self.script, e.faultcode, e.faultstring, e.faultactor, e.detail, E)
         except Exception as e:
             out = {'exc': type(e).__name__}
         recv = {'ok': self.recv} if self.recv is not None else None
@@ -498,7 +512,7 @@ class Program(object):
             return ({'ok': self.recv} if self.recv is not None else None), {'exc': type(e).__name__}
         if keep is not None:
             keep['request'], keep['response'] = req.decode('utf8', 'replace'), raw.decode('utf8', 'replace')
-        out = self.parse_response(proto, capp, raw)
+        out = self.parse_response(proto, capp, raw, getattr(server, 'last_is_error', None))
         recv = {'ok': self.recv} if self.recv is not None else None
         return recv, out
 
@@ -509,8 +523,12 @@ class Program(object):
         E = self.E
         etree = E.etree
         in_msg = self.desc.in_message
+        variant, proto = proto, base_of(proto)
         if proto == 'json':
             p = capp.out_protocol
+            if variant == 'json-list':        # complex_as=list: members by position
+                body = [None if v is None else p._to_dict_value(t, v, set()) for t, v in zip(self.in_types(), vals)]
+                return json.dumps({self.pub: body}).encode('utf8')
             body = {}
             for k, t, v in zip(keys, self.in_types(), vals):
                 if v is not None:
@@ -529,8 +547,9 @@ class Program(object):
             root = envl
         return etree.tostring(root, xml_declaration=True, encoding='UTF-8')
 
-    def parse_response(self, proto, capp, raw):
+    def parse_response(self, proto, capp, raw, is_error=None):
         E = self.E
+        variant, proto = proto, base_of(proto)
         sig, desc = self.sig, self.desc
         out_msg = desc.out_message
         p = capp.in_protocol
@@ -538,8 +557,14 @@ class Program(object):
             ctx = self.client_ctx(capp)
             if proto == 'json':
                 doc = json.loads(raw.decode('utf8'))
-                if isinstance(doc, dict) and 'faultcode' in doc and 'faultstring' in doc:
-                    return {'fault': fault_code(doc['faultcode'])}
+                if is_error is None:        # no transport signal (string mode): the dict form is self-describing
+                    is_error = isinstance(doc, dict) and 'faultcode' in doc and 'faultstring' in doc
+                if is_error:
+                    if isinstance(doc, (list, tuple)):      # complex_as=list: [faultcode, faultstring, faultactor, detail]
+                        doc = list(doc) + [None] * (4 - len(doc))
+                        return canon_fault(self.script, doc[0], doc[1], doc[2], doc[3], E)
+                    return canon_fault(self.script, doc.get('faultcode'), doc.get('faultstring'), doc.get('faultactor'),
+                                       doc.get('detail'), E)
                 if sig['style'] == 'wrapped':
                     keys = list(out_msg._type_info.keys())
                     ts = list(out_msg._type_info.values())
@@ -559,7 +584,8 @@ class Program(object):
                 body = root.find('{%s}Body' % SOAP_ENV)
                 root = body[0]
             if root.tag == '{%s}Fault' % SOAP_ENV:
-                return {'fault': fault_code(root.findtext('faultcode'))}
+                return canon_fault(self.script, root.findtext('faultcode'), root.findtext('faultstring'),
+                                   root.findtext('faultactor'), root.find('detail'), E)
             if sig['style'] == 'wrapped':
                 keys = list(out_msg._type_info.keys())
                 inst = p.from_element(ctx, out_msg, root)
@@ -585,6 +611,29 @@ def _nothing(self, v):
 
 
 Program.nothing = _nothing
+
+
+def canon_detail(d, E=None):
+    """a fault detail: None, a flat dict of strings (as a dict-document protocol carries it) or the <detail> element of
+    the XML family"""
+    if d is None or d == '' or d == {}:
+        return None
+    if isinstance(d, dict):
+        return {'o': ['dict', [[str(k), canon_val(v, E)] for k, v in sorted(d.items())]]}
+    if hasattr(d, 'tag'):       # lxml element <detail>
+        kids = list(d)
+        if not kids and not (d.text or '').strip():
+            return None
+        return {'o': ['dict', [[k.tag, {'s': k.text or ''}] for k in sorted(kids, key=lambda k: k.tag)]]}
+    return {'?': repr(d)[:60]}
+
+
+def canon_fault(script, code, string, actor, detail, E=None):
+    """the whole fault as its receiver sees it: code, string, actor, detail. The text of a fault that spyne raised
+    itself (Internal Error, RespawnError ...) is not compared: `string` is None unless it is the scripted one."""
+    scripted = script.get('string') if script.get('k') == 'fault' else None
+    return {'fault': fault_code(code), 'string': string if (scripted is not None and string == scripted) else None,
+            'actor': actor or '', 'detail': canon_detail(detail, E)}
 
 
 def fault_code(code):
@@ -715,12 +764,12 @@ def _measure_facts(E):
         cfg = {}
         p = prog('out_bare', ['a'], ['int'], {'one': None}, ['int'], {'k': 'pick', 'idx': [0]})
         _, out = p.call_wire(proto, [{'i': '5'}], [])
-        cfg['bareOut'] = 'first' if out == {'ok': {'i': '5'}} else ('wholeList' if out == {'fault': 'Server'} else 'other:' + json.dumps(out))
+        cfg['bareOut'] = 'first' if out == {'ok': {'i': '5'}} else ('wholeList' if out.get('fault') == 'Server' else 'other:' + json.dumps(out))
         # a function that returns fewer values than declared
         p = prog('wrapped', [], [], {'many': 2}, ['int', 'int'], {'k': 'const', 'v': {'l': [{'i': '1'}]}, 'tuple': True})
         _, out = p.call_wire(proto, [], [])
         cfg['shortOut'] = 'padNone' if out == {'ok': {'l': [{'i': '1'}, None]}} else \
-            ('indexError' if out == {'fault': 'Server'} else 'other:' + json.dumps(out))
+            ('indexError' if out.get('fault') == 'Server' else 'other:' + json.dumps(out))
         p = prog('bare', ['p'], ['P'], {'one': None}, ['int'], {'k': 'field', 'f': 'a'}, bareArg=['P', ['a', 'b']])
         _, out = p.call_wire(proto, [{'i': '5'}, {'s': 'q'}], [])
         if cfg['bareOut'] != 'first':      # the reply is unusable: look at what the function received instead
@@ -729,7 +778,7 @@ def _measure_facts(E):
                 ('className' if got == [{'l': []}] else 'other:' + json.dumps(got))
         else:
             cfg['bareIn'] = 'methodName' if out == {'ok': {'i': '5'}} else \
-                ('className' if out == {'fault': 'Server'} and p.recv == [{'l': []}] else 'other:' + json.dumps([out, p.recv]))
+                ('className' if out.get('fault') == 'Server' and p.recv == [{'l': []}] else 'other:' + json.dumps([out, p.recv]))
         p = prog('wrapped', [], [], ret_one('P'), ['P'], {'k': 'const', 'v': None})
         _, out = p.call_wire(proto, [], [])
         cfg['noneSingle'] = 'nil' if out == {'ok': None} else \
@@ -883,7 +932,11 @@ def gen_script(rng, sig, ptypes, rtypes, recv_types, kind):
     many = n >= 2        # `_returns=[T]` declares one return value: the function returns it bare
     if kind == 'fault':
         return {'k': 'fault', 'code': rng.choice(['Client.Custom', 'Client', 'Server.Oops', 'Server', 'Client.ValidationError',
-                                                  'Client.ResourceNotFound'])}
+                                                  'Client.ResourceNotFound']),
+                'string': rng.choice(['not enough items', 'x', 'count must be positive: é']),
+                'actor': rng.choice(['', '', 'urn:vault']),
+                'detail': rng.choice([None, {'o': ['dict', [['item', {'s': 'nail'}]]]},
+                                      {'o': ['dict', [['available', {'s': '10'}], ['item', {'s': 'gold'}]]]}])}
     if kind == 'error':
         return {'k': 'error', 'cls': rng.choice(['ValueError', 'KeyError', 'Raised'])}
     if kind == 'ignored':
@@ -1232,8 +1285,13 @@ class Runner(object):
                                        'none' if r is None else ('many' if 'many' in r else 'one'), sc['k'])
 
     # ------------------------------------------------------------------ one program, several calls
-    def run_program(self, spec, groups, t3=True, protos=PROTOS):
+    def run_program(self, spec, groups, t3=True, protos=None):
         ctx, E = self.ctx, self.E
+        if protos is None:
+            self.n_prog = getattr(self, 'n_prog', 0) + 1
+            # a raised Fault is sent through every configuration, anything else through one more besides the three
+            protos = PROTOS + (VARIANTS if spec['script']['k'] in ('fault', 'error') else
+                               (VARIANTS[self.n_prog % len(VARIANTS)],))
         prog = Program(E, spec)
         sig = spec['sig']
         # (a) decorator
@@ -1271,10 +1329,10 @@ class Runner(object):
                 # T3-b NullServer vs the wire
                 if tag in ('pos', 'kw', 'split'):
                     for proto in protos:
-                        exp = wire_view(sig, out, ctx.facts.get(proto))
+                        exp = wire_view(sig, out, ctx.facts.get(base_of(proto)))
                         keep = {}
                         wrecv, wout = prog.call_wire(proto, pos, [p for p in kw], keep)
-                        qw = dict(q, op='wire.call', proto=proto)
+                        qw = dict(q, op='wire.call', proto=base_of(proto), config=proto)
                         self.add(qw, {'recv': wrecv, 'out': wout})
                         ctx.cov['traces_validated_against_impl'] += 1
                         ok = (wout == exp) and (wrecv == recv)
@@ -1282,7 +1340,7 @@ class Runner(object):
                         if tag == 'pos' or (tag == 'kw' and ctx.thorough):
                             # T3-g the string mode: NullServer(app, ostr=True) returns the reply a wire client gets
                             oout = prog.call_ostr(proto, pos, kw)
-                            self.add(dict(q, op='null.ostr', proto=proto), {'out': oout})
+                            self.add(dict(q, op='null.ostr', proto=base_of(proto), config=proto), {'out': oout})
                             ctx.hit('ostr:%s:%s' % (proto, 'agree' if oout == wout else 'differ'))
                             if oout != wout:
                                 self.t3_fail += 1
@@ -1305,21 +1363,24 @@ class Runner(object):
                 no_self = bool(m_) and not m_['default_on_null'] and (not pos or pos[0] is None)
                 if no_self and tag == 'pos':
                     # T3-h a member method without its instance: RespawnError, a Client.ResourceNotFound fault
-                    if out != {'fault': 'Client.ResourceNotFound'}:
+                    if out.get('fault') != 'Client.ResourceNotFound':
                         self.t3_fail += 1
                         ctx.finding('member-no-instance', 'a member method called without its instance answers %s' % json.dumps(out),
                                     dict(rep, op='fault-direct', got=out, want={'fault': 'Client.ResourceNotFound'}))
                     continue
                 if m_ and m_.get('when') is False and tag == 'pos':
                     # T3-i the `_when` prerequisite says no: InvalidRequestError, whatever the body would do
-                    if out != {'fault': 'Client.InvalidInput'}:
+                    if out.get('fault') != 'Client.InvalidInput':
                         self.t3_fail += 1
                         ctx.finding('member-when', 'a member method whose _when prerequisite fails answers %s' % json.dumps(out),
                                     dict(rep, op='fault-direct', got=out, want={'fault': 'Client.InvalidInput'}))
                     continue
                 # T3-d raised faults: a Fault keeps its code, anything else is a Server fault (direct caller)
                 if spec['script']['k'] in ('fault', 'error') and tag == 'pos':
-                    want = {'fault': spec['script']['code'] if spec['script']['k'] == 'fault' else 'Server'}
+                    sc_ = spec['script']
+                    want = {'fault': sc_['code'], 'string': sc_.get('string'), 'actor': sc_.get('actor') or '',
+                            'detail': sc_.get('detail')} if sc_['k'] == 'fault' else \
+                        {'fault': 'Server', 'string': None, 'actor': '', 'detail': None}
                     if out != want:
                         self.t3_fail += 1
                         ctx.hit('t3-fail:fault-direct')
